@@ -63,14 +63,24 @@ Definition user_beq (a b : user) : bool :=
 Definition umap := list (bytes * list user).
 Inductive scan_res := SPanic | SErr | SOk (m : umap).
 
-Fixpoint add_user (m : umap) (k : bytes) (u : user) : umap :=
+(* out[layername] = append(out[layername], entry); a new key is inserted in key order *)
+Fixpoint has_key (m : umap) (k : bytes) : bool :=
+  match m with
+  | [] => false
+  | (k', _) :: r => beq k' k || has_key r k
+  end.
+Fixpoint upd (m : umap) (k : bytes) (u : user) : umap :=
+  match m with
+  | [] => []
+  | (k', us) :: r => if beq k' k then (k', us ++ [u]) :: r else (k', us) :: upd r k u
+  end.
+Fixpoint ins (m : umap) (k : bytes) (u : user) : umap :=
   match m with
   | [] => [(k, [u])]
-  | (k', us) :: r =>
-    if beq k' k then (k', us ++ [u]) :: r
-    else if ltb k k' then (k, [u]) :: m
-    else (k', us) :: add_user r k u
+  | (k', us) :: r => if ltb k k' then (k, [u]) :: m else (k', us) :: ins r k u
   end.
+Definition add_user (m : umap) (k : bytes) (u : user) : umap :=
+  if has_key m k then upd m k u else ins m k u.
 Fixpoint get (m : umap) (k : bytes) : list user :=
   match m with
   | [] => []
@@ -169,54 +179,55 @@ Fixpoint readdir_lstat {A} (o : nat -> option err) (i : nat) (l : list A) : opti
 
 Inductive step := Cont (m : umap) | Fail | Pan.
 
-(* what a failing Readdir(-1) of /proc/<pid>/fd does to the scan (fs/inuse.go:88-92):
-   the process is skipped (before the repair the whole scan failed: [Fail]) *)
-Definition fd_readdir_failed (m : umap) : step := Cont m.
-
 Definition anon : bytes := bs "[anon]".
 
-Definition scan_fds (prefix : bytes) (o : rid -> option err) (p : proc) (pid : N) (prog : bytes)
-    (m : umap) : step :=
-  let isdir := match o RFdStat with Some _ => false | None => match p_fds p with Some _ => true | None => false end end in
-  if negb isdir then Cont m else
-  match o RFdOpen with
-  | Some _ => Cont m
-  | None =>
-    match p_fds p with
-    | None => Cont m
-    | Some fds =>
+(* the readlink calls on /proc/<pid>/fd/*; no descriptor is looked at when fd is not a
+   directory (stat), cannot be opened, or Readdir(-1) fails (getdents, or an lstat with an
+   error other than ENOENT): the process is skipped (fs/inuse.go:81-95; before the repair a
+   failing Readdir made the whole scan fail) *)
+Definition fd_items (o : rid -> option err) (p : proc) : list (N * (bytes + err)) :=
+  match o RFdStat, p_fds p with
+  | None, Some fds =>
+    match o RFdOpen with
+    | Some _ => []
+    | None =>
       match o RFdReaddir with
-      | Some _ => fd_readdir_failed m
+      | Some _ => []
       | None =>
         match readdir_lstat (fun j => o (RFdLstat j)) 0 fds with
-        | None => fd_readdir_failed m
+        | None => []
         | Some ents =>
-          match scan_links prefix pid prog
-                  (map (fun jf => (K_open, read_link (o (RFdLink (fst jf))) (fd_tgt (snd jf)) EOTHER)) ents) m with
-          | None => Pan
-          | Some m' => Cont m'
-          end
+          map (fun jf => (K_open, read_link (o (RFdLink (fst jf))) (fd_tgt (snd jf)) EOTHER)) ents
         end
       end
     end
+  | _, _ => []
+  end.
+
+(* all reads the scan makes of one entry of /proc, in order (they do not depend on what has
+   been attributed so far): skipped, fatal, or program name and link reads *)
+Inductive preads := PSkip | PFail | PReads (prog : bytes) (items : list (N * (bytes + err))).
+Definition proc_reads (o : rid -> option err) (p : proc) : preads :=
+  if negb (p_isdir p) || negb (is_numeric (p_name p)) then PSkip else
+  let items := [(K_cwd, read_link (o RCwd) (p_cwd p) ENOENT);
+                (K_root, read_link (o RRoot) (p_root p) ENOENT);
+                (K_exec, read_link (o RExe2) (p_exe p) ENOENT)] ++ fd_items o p in
+  match read_link (o RExe) (p_exe p) ENOENT with
+  | inr EACCES => PSkip
+  | inr ENOENT => PReads anon items
+  | inr _ => PFail
+  | inl t => PReads (pathbase t) items
   end.
 
 Definition scan_proc (prefix : bytes) (o : rid -> option err) (p : proc) (m : umap) : step :=
-  if negb (p_isdir p) || negb (is_numeric (p_name p)) then Cont m else
-  let pid := pid_of (p_name p) in
-  let go (prog : bytes) :=
-    match scan_links prefix pid prog
-            [(K_cwd, read_link (o RCwd) (p_cwd p) ENOENT);
-             (K_root, read_link (o RRoot) (p_root p) ENOENT);
-             (K_exec, read_link (o RExe2) (p_exe p) ENOENT)] m with
+  match proc_reads o p with
+  | PSkip => Cont m
+  | PFail => Fail
+  | PReads prog items =>
+    match scan_links prefix (pid_of (p_name p)) prog items m with
     | None => Pan
-    | Some m1 => scan_fds prefix o p pid prog m1
-    end in
-  match read_link (o RExe) (p_exe p) ENOENT with
-  | inr EACCES => Cont m
-  | inr ENOENT => go anon
-  | inr _ => Fail
-  | inl t => go (pathbase t)
+    | Some m' => Cont m'
+    end
   end.
 
 Fixpoint scan_loop (prefix : bytes) (orc : oracle) (es : list (nat * proc)) (m : umap) : scan_res :=
